@@ -53,6 +53,15 @@ structure DisperseEnv where
   npop : List Int            -- total population raster
   w : Option (List Rat)      -- weather coefficient raster
 
+/-- A landing as `Model::run_step` performs it: through `MultiHostPool::disperser_to` over the
+    single host with arrival behaviour "infect": the suitability is evaluated first (and may be
+    rejected), a non-positive suitability returns without any draw, otherwise the host's own
+    `disperser_to` runs. -/
+def Cell.landViaWrapper (mt : ModelType) (c : Cell) (env : EnvCell) (stochastic : Bool) (pEst u : Rat) :
+    Except ErrKind (Cell × Int × Nat) := do
+  let p ← c.suitability env
+  if p ≤ 0 then pure (c, 0, 0) else c.disperserTo mt env stochastic pEst u
+
 /-- One disperser: kernel target, outside test, establishment. Returns the new state, whether it
     established, and the uniforms left. -/
 def landOne (g : Grid) (env : DisperseEnv) (cells : List Cell) (p : PestState) (target : Int × Int)
@@ -64,7 +73,7 @@ def landOne (g : Grid) (env : DisperseEnv) (cells : List Cell) (p : PestState) (
     let cell := cells[k]!
     let ec : EnvCell := { n := env.npop[k]!, w := env.w.map (·[k]!), sus := none }
     let u := us.headD 0
-    match cell.disperserTo env.mt ec env.stochastic env.pEst u with
+    match cell.landViaWrapper env.mt ec env.stochastic env.pEst u with
     | .error e => .error e
     | .ok (c', res, used) => .ok (cells.set k c', p, res == 1, if used = 0 then us else us.drop 1)
 
